@@ -42,7 +42,10 @@ type Disk struct {
 	StdinTTY bool              `json:"stdin_tty,omitempty"` // true: reads return one line at a time (terminal); false: a pipe
 	Root     bool              `json:"root,omitempty"`      // true: permission bits are ignored (uid 0)
 	Quota    int               `json:"quota,omitempty"`
-	Temps    int               `json:"temps,omitempty"` // counter for CreateTemp/MkdirTemp names
+	// Mounts lists directories that are file systems of their own (e.g. "/tmp" on a tmpfs): a rename
+	// across two of them fails with EXDEV, as it does on a real machine
+	Mounts []string `json:"mounts,omitempty"`
+	Temps  int      `json:"temps,omitempty"` // counter for CreateTemp/MkdirTemp names
 }
 
 // NewDisk returns a disk with "/" and "/tmp", HOME=/home/u and cwd /home/u/work.
@@ -135,6 +138,17 @@ func (d *Disk) RemoveRaw(p string) {
 			delete(d.Files, k)
 		}
 	}
+}
+
+// mountOf returns the mount point a path lives on ("/" unless it is below one of Mounts).
+func (d *Disk) mountOf(p string) string {
+	best := "/"
+	for _, m := range d.Mounts {
+		if (p == m || strings.HasPrefix(p, m+"/")) && len(m) > len(best) {
+			best = m
+		}
+	}
+	return best
 }
 
 // TotalBytes is the number of data bytes stored.
@@ -968,6 +982,9 @@ func Rename(oldname, newname string) error {
 	n, e := st.lookup(op)
 	if e != 0 {
 		return end(idx, dec, lerr(e))
+	}
+	if st.disk.mountOf(op) != st.disk.mountOf(np) {
+		return end(idx, dec, lerr(syscall.EXDEV))
 	}
 	if e := st.canWriteDir(filepath.Dir(op)); e != 0 {
 		return end(idx, dec, lerr(e))
